@@ -286,6 +286,7 @@ func NewWorld(r *Rng, o WorldOpts) *GenWorld {
 			f.MaxBody = min(f.MaxBody, 2)
 		}
 		f.PublicFuncs = i > 0
+		f.LibScoped = i > 0 && r.Chance(85)
 		if r.Chance(50) {
 			f.WorldPaths = worldPaths(names[i])
 		}
